@@ -68,6 +68,10 @@ type Ctx struct {
 	capped      []string
 }
 
+// Replaying is set by the dispatcher when one recorded case is re-executed (--replay): the replay files of earlier runs,
+// the one being replayed among them, are then left alone and no new ones are written.
+var Replaying bool
+
 func New(id, tier, level string) *Ctx {
 	seed, _ := strconv.ParseInt(os.Getenv("VERIF_SEED"), 10, 64)
 	c := &Ctx{ID: id, Tier: tier, Level: level, Seed: seed, start: time.Now(), Cov: map[string]any{},
@@ -75,7 +79,9 @@ func New(id, tier, level string) *Ctx {
 	if n, err := strconv.Atoi(os.Getenv("VERIF_MAX_REPLAYS")); err == nil && n > 0 {
 		c.MaxReplays = n
 	}
-	os.RemoveAll(filepath.Join(OutRoot(), "replays", id))
+	if !Replaying {
+		os.RemoveAll(filepath.Join(OutRoot(), "replays", id))
+	}
 	b, err := os.ReadFile(filepath.Join(Root(), "known_findings.json"))
 	if err == nil {
 		var all []Finding
@@ -136,7 +142,7 @@ func (c *Ctx) Violation(key, what string, replay any) {
 	v := &violation{Key: key, What: what, Count: 1}
 	c.viol[key] = v
 	c.violOrder = append(c.violOrder, key)
-	if len(c.violOrder) <= c.MaxReplays {
+	if len(c.violOrder) <= c.MaxReplays && !Replaying {
 		dir := filepath.Join(OutRoot(), "replays", c.ID)
 		os.MkdirAll(dir, 0o755)
 		h := sha256.Sum256([]byte(key))
